@@ -33,7 +33,7 @@ class C13(Spec):
     rule = ("schedules at the granularity of atomic exchange / link store / notification write (producers) and wake-up / "
             "notification drain / tail read (consumer), replayed on the real PollableQueue through the PISTACHE_VERIF yield "
             "points under a cooperative scheduler: ALL interleavings of 2 producers x 1 push with 6 consumer steps and of "
-            "1 producer x 2 pushes with 6 consumer steps (exhaustive), plus seeded schedules for 1-3 producers x 1-3 pushes; "
+            "1 producer x 2 pushes with 6 consumer steps (exhaustive), the same two configurations with a consumer that takes ONE entry per wake-up and goes back to its event loop (J cases, 8 consumer grants, exhaustive), plus seeded schedules for 1-3 producers x 1-3 pushes; "
             "after the schedule producers run to completion and the consumer runs while the eventfd wakes it. Oracle: every "
             "pushed value popped exactly once, per-producer order kept, nothing left queued. non-trivial = schedule in which "
             "a producer step falls between two consumer steps; distinct by case line")
@@ -46,6 +46,12 @@ class C13(Spec):
             cases.append("K 1,1 S " + s)
         for s in interleavings([6, 6]):
             cases.append("K 2 S " + s)
+        # a consumer that takes one entry per wake-up (stops draining with entries queued): ALL interleavings of
+        # 1 producer x 2 pushes and of 2 producers x 1 push with 8 consumer grants
+        for s in interleavings([8, 6]):
+            cases.append("J 2 S " + s)
+        for s in interleavings([8, 3, 3]):
+            cases.append("J 1,1 S " + s)
         n = 3000 if tier == "quick" else 100000
         for _ in range(n):
             np_ = rng.choice([1, 2, 2, 3, 3])
@@ -55,7 +61,7 @@ class C13(Spec):
                 steps += [str(i + 1)] * (3 * p)
             steps += ["0"] * rng.randint(3, 3 * sum(pushes) + 6)
             rng.shuffle(steps)
-            cases.append("K %s S %s" % (",".join(map(str, pushes)), "".join(steps)))
+            cases.append("%s %s S %s" % (rng.choice("KKJ"), ",".join(map(str, pushes)), "".join(steps)))
         if tier != "quick":
             for s in interleavings([5, 3, 3, 3]):
                 if rng.random() < 0.05:
